@@ -274,11 +274,61 @@ def newer_residue_publish_cases(ctx):
                 ctx.trace(1)
 
 
+def same_servermap_publish_cases(ctx):
+    """Several publishes through ONE servermap / one MutableFileVersion object (IMutableFileVersion.overwrite twice,
+    node.upload(data, servermap) twice): the map is updated by each publish, so each new sequence number must exceed the
+    previous one."""
+    from core import grid as G
+    from twisted.internet import defer
+    from allmydata.mutable.publish import MutableData
+    from allmydata.mutable.common import MODE_WRITE
+    for i in range(ctx.n(4, 12)):
+        r = ctx.rng("samemap", i)
+        seed = r.getrandbits(30)
+        k, N = r.choice([(2, 4), (3, 5), (1, 3)])
+        fmt = "sdmf" if i % 2 == 0 else "mdmf"
+        how = ["version.overwrite", "node.upload(servermap)"][(i // 2) % 2]
+        case = {"seed": seed, "servers": N, "k": k, "N": N, "format": fmt, "scenario": "same-servermap-publishes", "entry": how}
+        with G.Grid(num_clients=1, num_servers=N, k=k, n=N, happy=1, seed=seed, timeout=180) as g:
+            node = g.run(g.create_mutable(b"zero", version=fmt))
+
+            def seqs():
+                return sorted(set(share_version(g, sh)[0] for sh in g.find_shares(node.get_uri())))
+
+            @defer.inlineCallbacks
+            def publishes():
+                seen = [max(seqs())]
+                if how == "version.overwrite":
+                    mv = yield node.get_best_mutable_version()
+                    for j in range(3):
+                        yield mv.overwrite(MutableData(b"content-%d" % j))
+                        seen.append(max(seqs()))
+                else:
+                    smap = yield node.get_servermap(MODE_WRITE)
+                    for j in range(3):
+                        yield node.upload(MutableData(b"content-%d" % j), smap)
+                        seen.append(max(seqs()))
+                defer.returnValue(seen)
+            out = g.run(publishes(), outcome=True)
+            ctx.case((seed, "samemap", how, fmt), kind="grid-same-servermap-publishes:" + how)
+            if out.status != "ok":
+                ctx.count("samemap-publish-not-ok:%s:%s" % (how, out.error))
+                continue
+            seen = out.value
+            if any(b <= a for a, b in zip(seen, seen[1:])):
+                ctx.oracle_fail("publish-seqnum-not-above-survey", "successive publishes through one servermap (%s, %s) left highest sequence numbers %r on the grid: "
+                                "a publish wrote a sequence number no higher than a version already in its own map" % (how, fmt, seen), case=case,
+                                expected="strictly increasing", observed=seen)
+            else:
+                ctx.trace(1)
+
+
 def grid_histories(ctx):
     from core import grid as G
     from allmydata.mutable.publish import MutableData
     multi_share_server_cases(ctx)
     newer_residue_publish_cases(ctx)
+    same_servermap_publish_cases(ctx)
     n = ctx.n(6, 60)
     for i in range(n):
         r = ctx.rng("hist", i)
